@@ -2760,7 +2760,17 @@ impl Node for XmlDocumentType {
     }
 
     fn parent_node(&self) -> Option<XmlNode> {
-        Some(XmlDocument::from(self.declaration.borrow().parent()).as_node())
+        let document = self.declaration.borrow().parent();
+        let attached = document
+            .borrow()
+            .document_declaration()
+            .map(|v| v.borrow().id() == self.declaration.borrow().id())
+            .unwrap_or(false);
+        if attached {
+            Some(XmlDocument::from(document).as_node())
+        } else {
+            None
+        }
     }
 
     fn child_nodes(&self) -> XmlNodeList {
